@@ -1,7 +1,7 @@
 #!/bin/bash
 # run every claimed check (tier $1, default quick) on the current /repo and report
 tier=${1:-quick}
-cd /verif
+cd "$(dirname "$0")/.."
 rc=0
 for p in $(python3 -c "import json;print(' '.join(c['property_id'] for c in json.load(open('MANIFEST.json'))['checks']))"); do
   ./vcheck $p --tier $tier | tail -3 || rc=1
